@@ -45,6 +45,17 @@ def determinism(argv):
     core.cleanup_scratch()
     runs = sum(len(fp) for (fp, _) in a.values())
     bad = [(k, a[k], b[k]) for k in sorted(a) if a[k] != b[k]]
+    # a case that differs is executed twice more, alone: only a difference that persists counts (machine load acts on the
+    # parts that run real and uncontrolled inside a step, e.g. jwalk's one-second wait for its rayon pool)
+    still = []
+    for (k, x, y) in bad:
+        (_, _, f1, v1) = _fp_case((k[0], seed, k[1]))
+        (_, _, f2, v2) = _fp_case((k[0], seed, k[1]))
+        if (f1, v1) != (f2, v2):
+            still.append((k, (f1, v1), (f2, v2)))
+    if bad:
+        print("determinism: %d cases differed under load, %d of them still differ when executed alone" % (len(bad), len(still)))
+    bad = still
     print("determinism: %d cases, %d simulated runs, each executed twice (16 workers %.0fs, 3 workers %.0fs): %d divergent" % (
         len(tasks), runs, t1 - t0, time.time() - t1, len(bad)))
     for (k, x, y) in bad[:10]:
